@@ -293,6 +293,7 @@ class ProxyNet:
 
     # -- recording
     def log(self, **kw):
+        kw.setdefault("k", self.cur_k)
         with self.lock:
             self.events.append(event(**kw))
 
@@ -323,7 +324,7 @@ class ProxyNet:
         self._uc.create_connection = self._orig
         for s in list(self.socks.values()):
             try:
-                s.close()
+                s.shutdown(socket.SHUT_RDWR)     # wakes a party thread blocked in recv
             except OSError:
                 pass
         for t in self.threads.values():
